@@ -304,7 +304,7 @@ proof fn lemma_pool_mono(re: Regex, c: Map<RegexId, DFAId>, c2: Map<RegexId, DFA
 /// dfa is the subset construction of re, for some numbering of position sets and some assignment
 /// of automaton ids to the within-word regexes; it then accepts what the position automaton accepts
 spec fn is_subset_construction(re: Regex, dfa: DFA) -> bool {
-    exists|sid: Map<ISet<u32>, u32>, c: Map<RegexId, DFAId>| #[trigger] subset_ok(re, c, dfa, sid) && lang_ok(re, c, dfa) && keys_cached(re, c, re.input_from_position@.len() as int)
+    exists|sid: Map<ISet<u32>, u32>, c: Map<RegexId, DFAId>| #[trigger] subset_ok(re, c, dfa, sid) && lang_ok(re, c, dfa) && regex_lang_ok(re, c, dfa) && keys_cached(re, c, re.input_from_position@.len() as int)
         && cache_in_range(c, dfa.subdfas.store@.len() as int)
 }
 
